@@ -169,7 +169,8 @@ Close(a) ==
 
 (* ---- reader.read_buffer_ref(b): the view itself -- which may already hold bytes -- is handed to *)
 (* a byte-slice reader holding a.bs: min(len bs, remaining) bytes are stored behind what is there  *)
-(* and counted, the view is consumed and released.  a = [a |-> "readclose", bs].  The slice        *)
+(* and counted, the view is consumed and released.  a = [a |-> "readclose", bs, claim]; claim = 0: *)
+(* the reader reports the number of bytes it stored (claim > 0: see ReadOver below).  The slice    *)
 (* returned is everything the view holds, old bytes first (what the code does: initialized());     *)
 (* the documentation of ReadBufferRef speaks of "the newly written bytes": returning exactly the   *)
 (* bytes the reader stored is the other reading the property allows (det = FALSE).  Any other      *)
@@ -201,6 +202,47 @@ Unwind(a) ==
   /\ views' = <<>> /\ phase' = "closed"
   /\ ops' = ops + 1 /\ act' = a /\ det' = TRUE
   /\ UNCHANGED <<kind, cap, len0, mem0, mem>>
+
+(* ---- unsafe entry points that are *told* a count.  A count above what is left must be refused  *)
+(* (the code asserts: a panic is the specified refusal) and must leave every count untouched.     *)
+(* a = [a |-> "overadvance", n], n > remaining: b.advance(n) inside the closure, the panic is     *)
+(* caught there and the view is used further.                                                     *)
+OverAdvance(a) ==
+  /\ phase = "open" /\ a.n > Rem(Top)
+  /\ out' = [r |-> "refused", rem |-> Rem(Top)]
+  /\ ops' = ops + 1 /\ act' = a /\ det' = TRUE
+  /\ UNCHANGED <<phase, kind, cap, len0, mem0, mem, olen, views, done>>
+
+(* a = [a |-> "readclose", bs, claim], claim > remaining: read_buffer_ref(reader, b) with a reader  *)
+(* that stores min(len bs, remaining) bytes but reports `claim`: the bytes are in the spare memory  *)
+(* but not counted, the refusal unwinds through every open view (as Unwind).                        *)
+ReadOver(a) ==
+  /\ phase = "open" /\ Bytes(a.bs) /\ a.claim > Rem(Top)
+  /\ LET v == Top
+         mem2 == Put(mem, v.off + v.init, Take(a.bs, Min(Len(a.bs), Rem(v))))
+         tot == SumInit(views) IN
+     /\ mem' = mem2
+     /\ olen' = OlenAfter(tot)
+     /\ done' = (IF kind = "sliceref" THEN <<>> ELSE done) \o CatLog(views)
+     /\ out' = [r |-> "refused", olen |-> OlenAfter(tot), own |-> Own(mem2, OlenAfter(tot))]
+  /\ views' = <<>> /\ phase' = "closed"
+  /\ ops' = ops + 1 /\ act' = a /\ det' = TRUE
+  /\ UNCHANGED <<kind, cap, len0, mem0>>
+
+(* ---- an intermediate object of the conversion chain is created and dropped without use:         *)
+(* target[.cap_at(k)...].to_to_buffer_ref() is dropped before to_buffer_ref() is ever called.       *)
+(* a = [a |-> "touch", ks].  Nothing was written: a parent view keeps its count, a Vec / ArrayVec   *)
+(* its length; a slice reference is narrowed to the (empty) initialized part, as by any release.    *)
+Touch(a) ==
+  /\ phase \in {"closed", "open"}
+  /\ IF phase = "closed"
+     THEN /\ olen' = OlenAfter(0)
+          /\ done' = IF kind = "sliceref" THEN <<>> ELSE done
+          /\ out' = [r |-> "ok", olen |-> OlenAfter(0), own |-> Own(mem, OlenAfter(0))]
+     ELSE /\ out' = [r |-> "ok", rem |-> Rem(Top)]
+          /\ UNCHANGED <<olen, done>>
+  /\ ops' = ops + 1 /\ act' = a /\ det' = TRUE
+  /\ UNCHANGED <<phase, kind, cap, len0, mem0, mem, views>>
 
 (* ---- reader.read_buffer(target[.cap_at(k)...]) with a byte-slice reader holding a.bs:         *)
 (* a view is opened, min(len bs, spare) bytes are stored through uninitialized_mut + advance,    *)
@@ -245,7 +287,9 @@ Step(a) ==
     [] a.a \in {"close", "closeinit"} -> Close(a)
     [] a.a = "unwind" -> Unwind(a)
     [] a.a = "read" -> Read(a)
-    [] a.a = "readclose" -> ReadClose(a)
+    [] a.a = "readclose" -> IF a.claim = 0 THEN ReadClose(a) ELSE ReadOver(a)
+    [] a.a = "overadvance" -> OverAdvance(a)
+    [] a.a = "touch" -> Touch(a)
     [] a.a = "final" -> Final(a)
     [] OTHER -> FALSE
 
@@ -292,18 +336,24 @@ Frame ==
 
 \* releasing a view adds exactly its count to the parent / owner
 WriteBack ==
-  [][ (act'.a \in {"close", "closeinit", "readclose"}) =>
+  [][ (act'.a \in {"close", "closeinit"} \/ (act'.a = "readclose" /\ act'.claim = 0)) =>
         LET add == Top.init + (IF act'.a = "readclose" THEN Min(Len(act'.bs), Rem(Top)) ELSE 0) IN
         IF Len(views) > 1
         THEN views'[Len(views) - 1].init = views[Len(views) - 1].init + add
         ELSE olen' = OlenAfter(add) ]_vars
+
+\* a count above what is left is refused and changes no count; dropping an unused intermediate changes no count
+RefusedCounts ==
+  [][ (act'.a = "overadvance" => (out'.r = "refused" /\ views' = views /\ olen' = olen /\ mem' = mem))
+      /\ ((act'.a = "readclose" /\ act'.claim > 0) => (out'.r = "refused" /\ olen' = OlenAfter(SumInit(views))))
+      /\ (act'.a = "touch" => (views' = views /\ mem' = mem /\ (kind # "sliceref" => olen' = olen))) ]_vars
 
 \* every slice handed to the caller consists of bytes written through the view it comes from, in order:
 \* the whole view (initialized(), read_buffer_ref) or its newest part (read_buffer on a fresh view,
 \* the documented reading of read_buffer_ref) -- never a window that mixes or repeats
 Suffix(s, t) == Len(s) <= Len(t) /\ SubSeq(t, Len(t) - Len(s) + 1, Len(t)) = s
 SliceReported ==
-  [][ (act'.a \in {"closeinit", "readclose"}) =>
+  [][ (act'.a = "closeinit" \/ (act'.a = "readclose" /\ act'.claim = 0)) =>
         LET whole == Top.log \o (IF act'.a = "readclose" THEN Take(act'.bs, Min(Len(act'.bs), Rem(Top))) ELSE <<>>) IN
         /\ Suffix(out'.data, whole)
         /\ (det' => out'.data = whole) ]_vars
